@@ -377,6 +377,19 @@ def write_evidence(pid, tier, seed, coverage, wall, violations, assumptions=None
         json.dump(ev, f, indent=1)
 
 
+def gen_changed(*names):
+    """names of regenerated source inventories (lean/CC/Gen/<name>) that differ from the committed ones, i.e. the
+    translated part of the repository under test is not what the committed proofs were checked against.  Used to DIRECT
+    deeper (slower) searches for a failing input; on the unchanged tree it is empty.  No git / no repository: empty."""
+    try:
+        r = subprocess.run(["git", "-C", VERIF, "diff", "--name-only", "--", "lean/CC/Gen"], stdout=subprocess.PIPE,
+                           stderr=subprocess.DEVNULL, text=True, timeout=60)
+        ch = [os.path.basename(x) for x in r.stdout.split() if x]
+    except Exception:
+        return []
+    return [c for c in ch if not names or c in names]
+
+
 def write_replay(pid, seed, tag, body):
     d = os.path.join(OUT, pid)
     os.makedirs(d, exist_ok=True)
